@@ -94,3 +94,44 @@ Example dfxp_error_exit :
   let r := write fixed W_DFXP dflt_opts winst0 (w_st w1) s in
   wr_result r = Err ERelativization /\ snap FUEL (wr_store r) s = snap FUEL (w_st w1) s.
 Proof. vm_compute. split; reflexivity. Qed.
+
+(* ---- C10 witnesses --------------------------------------------------------------------------------------------------- *)
+From PV Require Import proofs.RegionFacts.
+
+(* pristine results of two small documents (what the real readers return; empty style dicts are explicit here, the
+   reader models decide which of them come from default arguments) *)
+Definition doc_a : tree := t_set t_dict0 [t_cap t_dict0 [t_text "hello"] TNone].
+Definition doc_b : tree := t_set t_dict0 [t_cap t_dict0 [t_text "other"] TNone].
+Definition red : tree := TNode KDict [(TStr (lit "s:color"), TStr (lit "s:red"))].
+
+Definition set_after (c : cfg) (ops : list op) (k : nat) : tree :=
+  let w := run_world c world0 ops in snap FUEL (w_st w) (nth k (w_sets w) VNone).
+
+(* defect 2 (before the base.py repair): read A, read B, A.add_style(..) shows up in B; so does a caption style;
+   and a LATER read of B's document no longer returns what a pristine read returns *)
+Theorem shared_default_refuted :
+  let c := mkCfg false true true in
+  let h := [ORead 0 R_SRT doc_a; ORead 1 R_SRT doc_b] in
+  set_after c (h ++ [OEdit 0 (EAddStyle (TStr (lit "s:x")) red)]) 1 <> set_after c h 1 /\
+  set_after c (h ++ [OEdit 0 (ECapStyle 0 0 (TStr (lit "s:bold")) (TStr (lit "b:True")))]) 1 <> set_after c h 1 /\
+  set_after c (h ++ [OEdit 0 (EAddStyle (TStr (lit "s:x")) red); ORead 2 R_SRT doc_b]) 2 <> doc_b.
+Proof. vm_compute. repeat split; discriminate. Qed.
+
+(* defect 3 (before the SCCReader repair): the second read of one reader object also returns the first read's
+   captions, and shares their node lists with the first result *)
+Theorem scc_reuse_refuted :
+  let c := mkCfg true false true in
+  set_after c [ORead 0 R_SCC doc_a; ORead 0 R_SCC doc_b] 1 <> set_after c [ORead 0 R_SCC doc_a; ORead 1 R_SCC doc_b] 1 /\
+  (let w := run_world c world0 [ORead 0 R_SCC doc_a; ORead 0 R_SCC doc_b] in
+   shares FUEL (w_st w) (nth 0 (w_sets w) VNone) (nth 1 (w_sets w) VNone) = true).
+Proof. vm_compute. split; [discriminate|reflexivity]. Qed.
+
+(* after the repairs: the same histories behave *)
+Example isolation_example :
+  let h := [ORead 0 R_SRT doc_a; ORead 1 R_SRT doc_b] in
+  set_after fixed (h ++ [OEdit 0 (EAddStyle (TStr (lit "s:x")) red)]) 1 = doc_b /\
+  set_after fixed (h ++ [OEdit 0 (EAddStyle (TStr (lit "s:x")) red)]) 0 <> doc_a /\
+  set_after fixed (h ++ [OEdit 0 (EAddStyle (TStr (lit "s:x")) red); ORead 0 R_SRT doc_b]) 2 = doc_b /\
+  set_after fixed [ORead 0 R_SCC doc_a; ORead 0 R_SCC doc_b] 1 = doc_b /\
+  set_after fixed [ORead 0 R_SCC doc_a; ORead 0 R_SCC doc_b] 0 = doc_a.
+Proof. vm_compute. repeat split; try reflexivity; discriminate. Qed.
